@@ -19,6 +19,12 @@ impl AsRef<Path> for PathBuf {
     #[verifier::external_body]
     fn as_ref(&self) -> (r: &Path) { unimplemented!() }
 }
+// a text used as a path argument: only ever a relative ONE-component name in /repo (symlink target "build"); viewed as that component
+impl<'a> AsRef<Path> for &'a str {
+    open spec fn path_view(&self) -> PathV { seq![utf8(self@)] }
+    #[verifier::external_body]
+    fn as_ref(&self) -> (r: &Path) { unimplemented!() }
+}
 impl<'a, T: AsRef<Path>> AsRef<Path> for &'a T {
     open spec fn path_view(&self) -> PathV { (**self).path_view() }
     #[verifier::external_body]
